@@ -16,7 +16,8 @@ RULE = ('histories on the real Bus with raw scripted clients (real handshake and
         'exhaustive; enum_q3: three requests by three clients with all 8^3 flag combinations followed by every single '
         'operation (quick) / every pair of operations with flags 0-3 (thorough), exhaustive; random: histories to 40 '
         'steps with 4 clients and 2 names; dense: 3-12 steps, one name, mostly requests, with AddMatch / RemoveMatch by '
-        'the same connections in between; enum_rules: 8 match-rule prefixes (the same rule twice, partly removed ...) held '
+        'the same connections in between; flag_bits: undefined bits of the flags word set next to each defined combination (they carry no meaning); '
+        'enum_rules: 8 match-rule prefixes (the same rule twice, partly removed ...) held '
         'by owner or waiter before a name changes hands. After EVERY step the reply code, the '
         'NameAcquired / NameLost signals each client received, and GetNameOwner / ListQueuedOwners for every name (asked '
         'by an observer connection) are compared with a reference name table (queue per name, head = owner); '
@@ -332,6 +333,21 @@ def enum_three_requests_then(tier):
                 yield {'nclients': 3, 'nnames': 1, 'ops': pre + [list(a), list(b)]}
 
 
+def enum_unknown_flag_bits(tier):
+    """The flags word is a UINT32 of which three bits are defined; the others carry no meaning: a request with extra bits
+    set behaves like the same request without them."""
+    extra = (0x8, 0x10, 0x20, 0x100, 0x80000000, 0xfffffff8)
+    for hi in extra:
+        for low in range(8):
+            f = hi | low
+            for f0 in (0, 1):
+                yield {'nclients': 3, 'nnames': 1,
+                       'ops': [['request', 0, 0, f0], ['request', 1, 0, f], ['request', 2, 0, 0], ['release', 0, 0],
+                               ['request', 1, 0, f]]}
+                yield {'nclients': 3, 'nnames': 1,
+                       'ops': [['request', 0, 0, 1 | hi], ['request', 1, 0, 0], ['request', 1, 0, f], ['disconnect', 0]]}
+
+
 def enum_with_rules(tier):
     """Name hand-over by a connection that also holds match rules - none, one, the same one twice, some already removed:
     what the bus must clean up for a leaving connection besides its names must not get in the way of the names."""
@@ -356,7 +372,7 @@ def dense_history(draw, tier):
         if k in ('addmatch', 'removematch'):
             ops.append([k, draw(st.integers(0, 3)), draw(st.integers(0, 1))])
         elif k == 'request':
-            ops.append(['request', draw(st.integers(0, 3)), 0, draw(st.sampled_from([0, 0, 1, 1, 2, 2, 3, 3, 4, 5, 6, 7]))])
+            ops.append(['request', draw(st.integers(0, 3)), 0, draw(st.sampled_from([0, 0, 1, 1, 2, 2, 3, 3, 4, 5, 6, 7, 8, 0x12, 0x80000001]))])
         elif k == 'release':
             ops.append(['release', draw(st.integers(0, 3)), 0])
         else:
@@ -458,6 +474,8 @@ SUBCHECKS = [
     Subcheck('enum_q3', run_history, classify, enumerate=enum_three_requests_then, shards={'quick': 16, 'thorough': 16},
              exhaustive_note='three requests by three clients with all 8^3 flag combinations, followed by every one of the '
                              '30 operations (quick); followed by every pair of operations with flags 0-3 (thorough)'),
+    Subcheck('flag_bits', run_history, classify, enumerate=enum_unknown_flag_bits, shards={'quick': 4, 'thorough': 4},
+             exhaustive_note='6 undefined flag bits / bit groups x the 8 defined combinations, in two contended histories each'),
     Subcheck('enum_rules', run_history, classify, enumerate=enum_with_rules, shards={'quick': 8, 'thorough': 8},
              exhaustive_note='8 match-rule prefixes (incl. the same rule twice, partly removed) x rule holder = owner or '
                              'waiter x 16 flag pairs x {owner leaves, waiter leaves, owner releases}'),
